@@ -221,6 +221,7 @@ class Agg:
         self.harness_errors = []
         self.digest = hashlib.sha256()
         self.run_digests = {}
+        self.hist = {}
 
     def dump_digests(self, path):
         if path:
@@ -251,6 +252,9 @@ class Agg:
         self.states_sum += r.get("states", 0)
         if r.get("sample") is not None and len(self.samples) < 3:
             self.samples.append(r["sample"])
+        for cell, val in r.get("hist", {}).items():
+            h = self.hist.setdefault(cell, {})
+            h[val] = h.get(val, 0) + 1
         self.digest.update(str(r.get("digest", "")).encode())
         self.run_digests[str(r.get("i"))] = str(r.get("digest", ""))
 
